@@ -507,10 +507,17 @@ func GenCase(p *Profile) *rapid.Generator[Case] {
 				c.Ops = append(c.Ops, Op{K: OpEvict, C: uni(t, nc, "evictcoll"), N: rapid.IntRange(2, 12).Draw(t, "evictn"), Flag: 1})
 			}
 		}
-		if giantDrawn && len(c.Ops) > 40 {
-			// a value of a megabyte makes every probe re-open copy megabytes: keep such
-			// histories short (long ones tripped the watchdog on a busy machine)
-			c.Ops = c.Ops[:40]
+		if giantDrawn {
+			// a value of a megabyte makes every probe re-open and every complete read-back
+			// copy megabytes: keep such histories short and read back sparsely (a 32-op
+			// history with a read-back after every op, run twice by C17 with chunked value
+			// callbacks, took 13 s on a busy machine and tripped the 30 s watchdog once)
+			if len(c.Ops) > 24 {
+				c.Ops = c.Ops[:24]
+			}
+			if c.Cfg.CheckEvery == 1 {
+				c.Cfg.CheckEvery = 7
+			}
 		}
 		return c
 	})
